@@ -136,7 +136,8 @@ def _channels(q, int_first=False):
     def chan_of(a):
         key = tuple(float(v) for v in rnp.asarray(a).reshape(-1))
         if key not in table:
-            raise AssertionError("the solver analysed a record that is not one of the caller's channels: %r" % (key,))
+            from symx.proxy import ContractViolation
+            raise ContractViolation("the solver analysed a record that is not one of the caller's channels: %r" % (key,))
         return table[key]
     return ins, out, chan_of
 
